@@ -257,7 +257,16 @@ impl BlockWrite for RollingWriter {
                     (next_file_number, file)
                 } else {
                     let next_file_number = self.directory.files.inc(&self.file_number);
-                    let file = create_file(&self.directory.dir, &next_file_number)?;
+                    let file = match create_file(&self.directory.dir, &next_file_number) {
+                        Ok(file) => file,
+                        Err(io_err) => {
+                            // The file was not created: stop tracking its number, so that a retry
+                            // goes through the exclusive creation again instead of opening
+                            // whatever happens to bear that name.
+                            self.directory.files.untrack(&next_file_number);
+                            return Err(io_err);
+                        }
+                    };
                     (next_file_number, file)
                 };
 
